@@ -609,6 +609,33 @@ def _execute(sc, store):
                 lvm, first = _observe(prog, sc, vm=None, part=(0, half))
                 live_vms[:] = live_vms[-1:] + [(prog, lvm, first, half, f"add={names_add}, generation {gen}")]
             alive.append((prog, obs, f"add={names_add}, generation {gen}, variants {dict(variants)}"))
+            if st.get("dup_after"):
+                # a second definition offered to the same linker *after* the link: whether it is refused
+                # or not, the program already linked (and the VMs living on it) must not change
+                v_ = next((f_ for f_ in sc["funcs"] if f_.get("export", True)), None)
+                if v_ is not None:
+                    params_ = ", ".join(f"{t} {n}" for n, t in v_["params"])
+                    dsrc_ = (f"export function {v_['name']}({params_}) -> {v_['ret']} {{\n  return "
+                             f"{'4242' if v_['ret'] == 'int' else '4242.5'};\n}}\n")
+                    dmod_, _st, _why = _compile_inproc(dsrc_)
+                    if dmod_ is not None:
+                        try:
+                            lk.AddModule(dmod_)
+                            bump("dup_after_link_not_refused")
+                        except Exception:
+                            bump("dup_after_link_refused")
+                        again = _observe(prog, sc)
+                        if not _flat_equal(again, obs):
+                            k = next((i for i, (x, y) in enumerate(zip(again, obs)) if not _flat_equal(x, y)), None)
+                            return done(
+                                "violation",
+                                "earlier-program-changed",
+                                f"after a second definition of {v_['name']} was offered to the linker that had produced it, "
+                                f"the program (add={names_add}) behaves differently at history step {k}: now "
+                                f"{again[k] if k is not None and k < len(again) else again[-1]!r}, before "
+                                f"{obs[k] if k is not None and k < len(obs) else obs[-1]!r}",
+                                finding_key="earlier-program-changed-by-late-duplicate",
+                            )
             can = _canonical(prog)
             ck = "state"
             if ck in canon_by_state:
